@@ -127,6 +127,38 @@ def random_workload(seed: int, n_traces: int, default_lf_every: int = 0) -> list
     return rec.export()
 
 
+def suite_traces(load_factor: int, timeout: float = 600) -> dict:
+    """B3 source (ii): the repository's own tests run under the recorder plugin (in place, nothing written
+    into /repo); every store they touch becomes a trace."""
+    import os
+    import subprocess
+    import tempfile
+    fd, out = tempfile.mkstemp(prefix='verif_suite_traces_', suffix='.json')
+    os.close(fd)
+    env = dict(os.environ, PYTHONPATH=os.path.dirname(os.path.dirname(os.path.abspath(__file__))),
+               AUTOBEAN_VERIF_TRACE='1', AUTOBEAN_VERIF_TRACE_OUT=out, AUTOBEAN_VERIF_LOAD_FACTOR=str(load_factor),
+               PYTHONDONTWRITEBYTECODE='1')
+    try:
+        p = subprocess.run(['/venv/bin/python', '-m', 'pytest', '-q', '-p', 'no:cacheprovider', '-p', 'autobean_verif_plugin',
+                            '-k', 'not benchmark and not token_store_test', '--timeout=600'],
+                           cwd=common.REPO, env=env, capture_output=True, text=True, timeout=timeout)
+        tail = (p.stdout or '')[-300:]
+        try:
+            data = json.load(open(out))
+        except Exception:  # noqa: BLE001
+            data = {'traces': [], 'recorded': 0}
+        data['pytest_tail'] = tail.strip().splitlines()[-1] if tail.strip() else ''
+        data['pytest_exit'] = p.returncode
+        return data
+    except subprocess.TimeoutExpired:
+        return {'traces': [], 'recorded': 0, 'pytest_tail': 'timed out', 'pytest_exit': -1}
+    finally:
+        try:
+            os.unlink(out)
+        except OSError:
+            pass
+
+
 def big_store_workload(seed: int, rounds: int) -> list[tuple[str, str]]:
     """Default load factor (1000): stores of 2.1k-4.5k tokens driven by random splices; checked in
     Python against the plain list with the same battery (too large for TLC traces)."""
@@ -231,6 +263,20 @@ def main(prop: str, tier: str) -> int:
             rep.violation(f'store-trace/{clause}/{traces[ti]["events"][step - 1]["op"] if step else "?"}',
                           {'what': f'recorded execution rejected by TokenSeqTrace at event {step}: {clause}',
                            'trace': traces[ti], 'how': 'trace validation (TLC)'})
+    # B3 source (ii): traces produced by the repository's own test suite under a small load factor
+    st = suite_traces([3, 2, 4, 5][seed % 4])
+    suite_info = {k: v for k, v in st.items() if k != 'traces'}
+    if st['traces']:
+        sv = tracecheck.validate_store_traces(st['traces'])
+        for e in sv['errors']:
+            rep.machinery_error(f'suite trace validation: {e}')
+        suite_info.update({'validated': sv['accepted'] + len(sv['rejected']), 'rejected': len(sv['rejected']),
+                           'tlc_states': sv['tlc_states']})
+        for ti, step, clause in sv['rejected']:
+            kind = clause_kind.get(clause, 'crash')
+            if kind in kinds or (kind == 'first' and 'last' in kinds):
+                rep.violation(f'suite-trace/{clause}', {'what': f'a store used by the repository\'s tests was rejected by '
+                                                                f'TokenSeqTrace at event {step}: {clause}', 'trace': st['traces'][ti]})
     # sensitivity (b): a corrupted trace must be rejected
     victims = [t for t in traces if len(t['events']) >= 2 and len(t['events'][-1]['row']) >= 2][:20]
     if victims:
@@ -278,12 +324,12 @@ def main(prop: str, tier: str) -> int:
 
     rep.cov.update({
         'states': states, 'transitions': transitions,
-        'traces_validated_against_impl': replayed + tv['accepted'] + len(tv['rejected']),
+        'traces_validated_against_impl': replayed + tv['accepted'] + len(tv['rejected']) + suite_info.get('validated', 0),
         'behaviours_replayed': replayed, 'replay_steps': steps,
         'recorded_traces_validated': tv['accepted'] + len(tv['rejected']), 'recorded_events': tv['events'],
         'trace_tlc_states': tv['tlc_states'],
         'drift': drift, 'drift_samples': drift_samples,
-        'design_checks': design, 'sensitivity': sens,
+        'design_checks': design, 'sensitivity': sens, 'repository_suite_traces': suite_info,
         'samples': samples + ([{'recorded_trace': traces[0]}] if traces else []),
         'exhaustive': True,
         'rule': 'TLC enumerates every call sequence of BlockStore.tla within the listed constants; '
